@@ -94,8 +94,11 @@ func vStrListJSON(ss []string) []interface{} {
 	return out
 }
 
-func vDocOf(m *vModel) document.Document {
-	d := document.Document{"other": "member"}
+func vDocOf(m *vModel, withOther bool) document.Document {
+	d := document.Document{}
+	if withOther {
+		d["other"] = "member"
+	}
 	if len(m.keys) > 0 {
 		d[document.PublicKeyProperty] = vListJSON(m.keys)
 	}
@@ -241,7 +244,15 @@ func VHarness_C17_composer_vs_model() {
 	m := &vModel{keys: vEntries("doc.key", VNondetRange("doc.keys", 0, VBound("KEYS", 2))),
 		services: vEntries("doc.svc", VNondetRange("doc.svcs", 0, VBound("SVCS", 1))),
 		aliases:  vStrings("doc.alias", VNondetRange("doc.aliases", 0, VBound("ALIASES", 1)))}
-	doc := vDocOf(m)
+	// the document carries a foreign member or not; without it and without sections it is the EMPTY non-nil
+	// document that create / recover hand to the composer. OTHEROPT=0 keeps the foreign member whenever the
+	// document has a section (the empty document is still covered).
+	withOther := true
+	if len(m.keys)+len(m.services)+len(m.aliases) == 0 || VBound("OTHEROPT", 1) == 1 {
+		withOther = VNondetBool("doc.other")
+	}
+	doc := vDocOf(m, withOther)
+	members := len(doc)
 	np := VNondetRange("patches", 1, VBound("PATCHES", 2))
 	failAt := -1
 	if VNondetBool("one-patch-fails") {
@@ -260,8 +271,12 @@ func VHarness_C17_composer_vs_model() {
 	// purity: the input document still reads back as the initial model
 	back, ok := vReadBack(doc)
 	VAssert("C17/input-document-not-modified", VAnd(ok, vSameEntries(back.keys, m.keys), vSameEntries(back.services, m.services), vSameStrings(back.aliases, m.aliases)))
-	other, _ := doc["other"].(string)
-	VAssert("C17/input-other-members-not-modified", other == "member")
+	other, hasOther := doc["other"].(string)
+	VAssert("C17/input-other-members-not-modified", VAnd(hasOther == withOther, !withOther || other == "member"))
+	VAssert("C17/input-member-set-not-modified", len(doc) == members)
+	if members == 0 {
+		VCover("empty-input-document")
+	}
 	if failAt >= 0 {
 		VCover("atomic-failure")
 		VAssert("C17/fails-as-a-whole", VAnd(err != nil, got == nil))
